@@ -45,6 +45,7 @@ type C20Plan struct {
 	Sessions []C20Session    `json:"sessions"`
 	Ops      []C20Op         `json:"ops"`
 	Dispose  bool            `json:"dispose"`
+	Pull     bool            `json:"pull,omitempty"` // stream number Streams is fed by a relay pull from an origin stub (pull_* ops)
 }
 
 func genC20Plan(r *sim.Rng, tier string) C20Plan {
@@ -72,6 +73,13 @@ func genC20Plan(r *sim.Rng, tier string) C20Plan {
 	for s := 0; s < p.Streams; s++ {
 		p.Sessions = append(p.Sessions, C20Session{Kind: "rtmp_pub", Stream: s})
 	}
+	p.Pull = r.Bool(0.5)
+	if p.Pull {
+		// players of the pulled stream
+		for i := 0; i < 1+r.Intn(3); i++ {
+			p.Sessions = append(p.Sessions, C20Session{Kind: []string{"rtmp_sub", "flv_sub", "ts_sub", "rtsp_sub"}[r.Intn(4)], Stream: p.Streams})
+		}
+	}
 	nOps := 30 + r.Intn(50)
 	if tier == "thorough" {
 		nOps = 60 + r.Intn(160)
@@ -97,6 +105,12 @@ func genC20Plan(r *sim.Rng, tier string) C20Plan {
 			p.Ops = append(p.Ops, C20Op{Kind: "blacklist", S: s})
 		case 16:
 			p.Ops = append(p.Ops, C20Op{Kind: "rtp_pub", S: r.Intn(p.Streams)})
+		case 17:
+			if p.Pull {
+				p.Ops = append(p.Ops, C20Op{Kind: []string{"pull_start", "pull_start", "origin_send", "origin_send", "pull_kick", "pull_stop", "origin_close"}[r.Intn(7)], N: r.Intn(8)})
+			} else {
+				p.Ops = append(p.Ops, C20Op{Kind: "send", S: s, N: 1 + r.Intn(3)})
+			}
 		default:
 			if r.Bool(0.4) {
 				p.Ops = append(p.Ops, C20Op{Kind: "settle"})
@@ -153,6 +167,17 @@ func runC20(k *sim.Kernel, p C20Plan) {
 	api := func(name, path string, body []byte) {
 		apis = append(apis, w.ApiStart(fmt.Sprintf("%s-%d", name, len(apis)), path, body))
 	}
+	var origins []*actors.RtmpServerStub
+	if p.Pull {
+		k.RegisterStub("10.9.9.6:1935", func(c *sim.Conn) (sim.ConnHandler, time.Duration) {
+			st := actors.NewRtmpServerStub(k, fmt.Sprintf("origin%d", len(origins)), c)
+			origins = append(origins, st)
+			return st, 0
+		})
+	}
+	pullName := StreamName(p.Streams)
+	originUnits := admUnits(77, 40, true)
+	originSent := 0
 	nStart := 0
 	for _, op := range p.Ops {
 		var s *c20Sess
@@ -174,6 +199,33 @@ func runC20(k *sim.Kernel, p C20Plan) {
 		case "blacklist":
 			body, _ := json.Marshal(map[string]interface{}{"ip": fmt.Sprintf("10.0.%d.1", 100+op.S), "duration_sec": 1 + op.S%3})
 			api("bl", "/api/ctrl/add_ip_blacklist", body)
+		case "pull_start":
+			body, _ := json.Marshal(map[string]interface{}{"url": "rtmp://10.9.9.6:1935/live/" + pullName, "stream_name": pullName, "pull_timeout_ms": 3000,
+				"pull_retry_num": []int{-1, 0, 1}[op.N%3], "auto_stop_pull_after_no_out_ms": []int{-1, -1, 0, 1500}[op.N%4]})
+			api("pullstart", "/api/ctrl/start_relay_pull", body)
+		case "pull_stop":
+			api("pullstop", "/api/ctrl/stop_relay_pull?stream_name="+pullName, nil)
+		case "pull_kick":
+			id := "RTMPPULL1"
+			for _, e := range w.Notify.Snapshot() {
+				if e.Kind == "pull_start" {
+					id = e.SessionId
+				}
+			}
+			body, _ := json.Marshal(map[string]string{"stream_name": pullName, "session_id": id})
+			api("pullkick", "/api/ctrl/kick_session", body)
+		case "origin_send":
+			if len(origins) > 0 {
+				o := origins[len(origins)-1]
+				for i := 0; i <= op.N && originSent < len(originUnits) && !o.Closed; i++ {
+					o.Serve(originUnits[originSent].Msg)
+					originSent++
+				}
+			}
+		case "origin_close":
+			if len(origins) > 0 && !origins[len(origins)-1].Closed {
+				origins[len(origins)-1].Conn.CloseByPeer()
+			}
 		case "start":
 			if s == nil || (s.started && !s.left) {
 				continue
